@@ -256,6 +256,38 @@ def death_during_manager_msg(seed: int, n: int) -> List[List[dict]]:
 
 
 
+def drops_with_logging(seed: int, n: int) -> List[List[dict]]:
+    """receivers of a data type AND of the manager's own log messages (subscribed type by type, or to all types), one of them
+    not writable while a publisher sends: whatever the manager logs about the drop is a message like any other - every two
+    receivers see the data message and the log message in the same order (run with the manager's logging switched on)."""
+    out = []
+    for style in ("by-type", "all", "mixed"):
+        for stalled in (1, 2, 3):
+            for npub in (1, 2):
+                cast = [(f"r{i}", 10 + i) for i in range(5)] + [("p", 5)]
+                names = [c for c, _ in cast]
+                b = []
+                for c, mid in cast:
+                    b += [opn(c), rnd(c)]
+                for c, mid in cast:
+                    b += [snd(c, con2(mid, 0, c))]
+                b += [rnd("", names, names)]
+                for i, (c, mid) in enumerate(cast[:-1]):
+                    if style == "all" or (style == "mixed" and i % 2):
+                        b += [snd(c, sub(15, mid, 2147483647)), rnd("", [c], names)]
+                    else:
+                        for t in (1234, 43, 42, 44):
+                            b += [snd(c, sub(15, mid, t)), rnd("", [c], names)]
+                W = [c for c in names if c != f"r{stalled}"]
+                for k in range(npub):
+                    b += [snd("p", data(1234, 5, 0, 0, k + 1)), rnd("", ["p"], W)]
+                b += [snd("p", data(1234, 5, 0, 0, 9)), rnd("", ["p"], names)]
+                out.append(b)
+    if n and n < len(out):
+        out = random.Random(seed).sample(out, n)
+    return out
+
+
 def two_loggers(seed: int, n: int) -> List[List[dict]]:
     """two logger modules and a plain module: every control frame - also those SENT BY a logger - is acknowledged to its
     sender and copied to every (other) logger; data reaches both loggers whatever select reports as writable."""
